@@ -124,12 +124,19 @@ type Contract struct {
 	Trusted  bool            // body not verified (deps are always trusted)
 	Abstract bool            // assumed model of an interface method: no impl check
 	PureCalls bool           // calls of function-typed parameters have no heap effect (assumed)
+	Callbacks []CallbackSpec
 	Inline   bool
 	NoSafety map[string]bool // safety kinds not generated (stated in evidence)
 	Known    map[string]bool
 	Notes    []string
 	Ghost    []GhostStmt
 	Depth    string
+}
+
+type CallbackSpec struct {
+	Param     string
+	Cond      SExpr
+	Immediate bool
 }
 
 type GhostStmt struct {
@@ -200,7 +207,7 @@ type tok struct {
 var clauseKW = map[string]bool{
 	"requires": true, "ensures": true, "modifies": true, "loop": true, "invariant": true, "decreases": true,
 	"property": true, "wraps": true, "func": true, "pred": true, "pure": true, "trusted": true, "inline": true,
-	"frame": true, "callers": true, "type": true, "package": true, "nosafety": true, "note": true, "recursion": true, "ghost": true, "argpolicy": true, "ufunc": true, "abstract": true, "axiom": true, "purecalls": true,
+	"frame": true, "callers": true, "type": true, "package": true, "nosafety": true, "note": true, "recursion": true, "ghost": true, "argpolicy": true, "ufunc": true, "abstract": true, "axiom": true, "purecalls": true, "callback": true,
 }
 
 func lexSpec(lines []string, lineNos []int) ([]tok, error) {
@@ -728,6 +735,21 @@ func parseSpecFile(path string, defaultPkg string) (sf *SpecFile, err error) {
 			e := p.expr(1)
 			sf.Axioms = append(sf.Axioms, &AxiomDecl{Pkg: sf.Pkg, Body: e, Text: e.String()})
 			cur = nil
+		case "callback":
+			// callback <param> [requires <expr over _1, _2, ...>]: the callee invokes the function passed for <param>
+			// (possibly several times, in an arbitrary heap state) with arguments satisfying the condition; a closure
+			// literal passed at a call site is verified under exactly those assumptions.
+			cb := CallbackSpec{Param: p.next().s}
+			if p.isKW("immediate") {
+				// the callee has no heap effect of its own before (or between) invocations of the callback
+				p.next()
+				cb.Immediate = true
+			}
+			if p.isKW("requires") {
+				p.next()
+				cb.Cond = p.expr(1)
+			}
+			cur.Callbacks = append(cur.Callbacks, cb)
 		case "purecalls":
 			// function-typed parameters are assumed free of heap effects (listed among the assumptions)
 			cur.PureCalls = true
